@@ -57,7 +57,7 @@ def project(a, batch_moduli=()):
   ti = a.proto.test_info
   entries = [{'name': r.test_name, 'result': bool(r.result), 'sev': int(r.severity)} for r in ti.test_results]
   out = {'weak': bool(ti.weak), 'version': ti.paranoid_lib_version, 'entries': entries,
-         'nf': [], 'nm1': [], 'facts': [], 'dlog': 'none', 'diff': 'none',
+         'nf': [], 'nm1': [], 'facts': [], 'dlog': 'none', 'diff': 'none', 'nf_is_pq': False,
          'info_names': [x.info_name for x in ti.attached_info]}
   for info in ti.attached_info:
     if info.info_name in ('N_FACTORS', 'N-1_FACTORS'):
@@ -68,6 +68,8 @@ def project(a, batch_moduli=()):
         out['facts'].append({'field': field, 'id': 0, 'divides': False, 'proper': False})
         out[field].append(0)
         continue
+      if field == 'nf' and a.meta.get('p') and a.meta.get('q'):
+        out['nf_is_pq'] = set(fl) == {a.meta['p'], a.meta['q']}
       for f in fl:
         i = a.fid((field, f))
         target = n if field == 'nf' else n - 1
@@ -147,6 +149,7 @@ def record_call(sid, kind, arts, fn, checks=None, crit=None, libversion=None, ex
   for a in uniq:
     c = (crit or {}).get(a.aid, {})
     rec['arts'].append({'id': a.aid, 'cls': a.cls, 'has_params': has_params(a), 'crit': c,
+                        'attrs': a.meta.get('attrs') or {'family': 'none'},
                         'issuer_sev': int(a.meta.get('issuer_sev', 0)),
                         'divides_other': divides_other(a, uniq),
                         'before': before[a.aid], 'after': project(a)})
